@@ -48,11 +48,13 @@ func init() {
 func bound(tier string) string {
 	if tier == engine.Thorough {
 		return "no redefinition: 1 class and both 2-class DAGs x full slot alphabet (32 option pairs for slots s,u); all 10 3-class DAGs x 13-pair curated alphabet; " +
-			"all 160 4-class DAGs x 5-pair alphabet; initform nil: 1-3 classes x 5-pair alphabet; 10 five-class chain/diamond shapes x 3-pair alphabet; " +
+			"all 160 4-class DAGs x 3-pair alphabet; initform nil: 1-3 classes x 5-pair alphabet; 10 five-class chain/diamond shapes x 2-pair alphabet; " +
 			"every permutation of the defclass forms each (up to 120). " +
 			"Redefinition of any one class (slot s given a new initform, all slots removed, initarg instead of initform, slot u added, superclasses reversed / first dropped / one added) " +
-			"at every later point of every order: all 2- and 3-class DAGs x 5-pair alphabet x warm/cold dispatch cache; 4-class DAGs with <= 2 direct superclasses, slot s with initform in every class (cold). " +
-			"All subsets of valid initargs (a, b, shared k). CUT relative to the design: 5 classes restricted to 10 shapes; 4-class redefinition restricted to one slot alphabet entry and <= 2 superclasses."
+			"at every later point of every order: 2-class DAGs x 5-pair alphabet and 3-class DAGs x 3-pair alphabet, warm and cold dispatch cache; 3-class DAGs x {none, initform, shared initarg k on both slots} cold; " +
+			"4-class DAGs with <= 2 direct superclasses, slot s with initform in every class (cold). " +
+			"All subsets of valid initargs (a, b, shared k). CUT relative to the design (time, measured on a machine shared with 10 other harness builds): 4 classes x 3-pair instead of richer alphabets; " +
+			"5 classes restricted to 10 shapes x 2-pair alphabet; 4-class redefinition restricted to one slot alphabet entry and <= 2 superclasses."
 	}
 	return "no redefinition: 1 class x full slot alphabet (32 option pairs for slots s,u); both 2-class DAGs x 13-pair curated alphabet; all 10 3-class DAGs x 8-pair alphabet; " +
 		"all 160 4-class DAGs with slot s :initform in every class; initform nil: 1-2 classes x 5-pair, 3 classes x 3-pair alphabet; every permutation of the defclass forms each. " +
@@ -299,6 +301,9 @@ func judgeCase(c *caseSpec, mk func() world, reps int, res *engine.Result) (firs
 		if failedKeys[k] || failedClass[kc] {
 			continue // already reported against the statement (S3)
 		}
+		if (k[0] == 'M' || k[0] == 'S') && multiKey(fin, kc, k) {
+			continue // two supplied initargs name one slot: a set of outcomes is accepted, so orders may differ (S2)
+		}
 		ref := finals[0][0][k]
 		for hi := range hists {
 			for rep, o := range finals[hi] {
@@ -365,6 +370,23 @@ func judgeCase(c *caseSpec, mk func() world, reps int, res *engine.Result) (firs
 		res.Fail(sig, d)
 	}
 	return
+}
+
+// multiKey: the observation key belongs to a make-instance call in which two
+// supplied initargs name the same slot.
+func multiKey(defs []classDef, i int, key string) bool {
+	p := strings.Split(key, "|")
+	if len(p) < 3 || p[2] == "-" {
+		return false
+	}
+	sigma := strings.Split(p[2], "+")
+	order := canonPrec(defs, i)
+	for _, sl := range slotNames {
+		if expectSlot(defs, order, sl, sigma).src == "initarg-multi" {
+			return true
+		}
+	}
+	return false
 }
 
 // dispatchUnder: the dispatch observation the canonical reading of defs gives for class i.
